@@ -61,6 +61,7 @@ struct Shape {
     pins: Vec<(usize, usize, u64)>,
     free: Vec<(usize, usize)>,
     wins: Vec<usize>,
+    chars: Vec<(usize, usize, Vec<(usize, usize, u64)>)>, // character areas: offset, count, enabling fields
     ctx: Vec<(usize, usize)>, // header fields varied to build context pairs (same MB, other header)
     nbytes: usize,
 }
@@ -87,6 +88,10 @@ fn load_shapes(path: &str) -> Vec<Shape> {
                     .map(|p| (p[0].as_u64().unwrap() as usize, p[1].as_u64().unwrap() as usize))
                     .collect(),
                 wins: v["wins"].as_array().unwrap().iter().map(|w| w.as_u64().unwrap() as usize).collect(),
+                chars: v.get("chars").and_then(|c| c.as_array()).map(|a| a.iter().map(|c| (
+                    c["off"].as_u64().unwrap() as usize, c["n"].as_u64().unwrap() as usize,
+                    c["en"].as_array().map(|e| e.iter().map(|p| (p[0].as_u64().unwrap() as usize, p[1].as_u64().unwrap() as usize, p[2].as_u64().unwrap())).collect()).unwrap_or_default(),
+                )).collect()).unwrap_or_default(),
                 ctx: v.get("ctx").and_then(|c| c.as_array()).map(|a| a.iter().map(|p| (p[0].as_u64().unwrap() as usize, p[1].as_u64().unwrap() as usize)).collect()).unwrap_or_default(),
                 nbytes: if df >= 16 { 14 } else { 7 },
             }
@@ -326,6 +331,52 @@ fn enumerate(cfg: &Cfg, shapes: &[Shape], f: &mut dyn FnMut(u64, &str, &str, &[u
                     set_bits(&mut b, off, w, v);
                     finish(&mut b, sealable);
                     out(&b, &format!("f{fi}@{off}w{w}={v:x}.{}", bg_tag(*bg, j)), &mut idx);
+                }
+            }
+        }
+        // 3b. character fills (shapes with character areas): the 56-bit ME / MB field filled with
+        // one 6-bit code at each of the 6 bit alignments; and, per area, spaces everywhere but one
+        // position, a leading space only, a trailing space only (with the fields that make a reader
+        // look at the area).  The shape's own pinned fields win.
+        if !s.chars.is_empty() && s.nbytes == 14 {
+            for v in [32u64, 48, 1, 63] {
+                for align in 0..6usize {
+                    let mut b = vec![0u8; s.nbytes];
+                    for k in 0..56usize {
+                        let bit = (v >> (5 - ((k + 6 - align) % 6))) & 1;
+                        set_bits(&mut b, 32 + k, 1, bit);
+                    }
+                    pin(&mut b);
+                    finish(&mut b, sealable);
+                    out(&b, &format!("chars{v}@{align}"), &mut idx);
+                }
+            }
+            for (ai, (off, n, en)) in s.chars.iter().enumerate() {
+                let mut pats: Vec<(String, Vec<u64>)> = vec![];
+                for p in [0usize, n / 2, n - 1] {
+                    let mut c = vec![32u64; *n];
+                    c[p] = 1;
+                    pats.push((format!("sp-but{p}"), c));
+                }
+                let mut lead = vec![1u64; *n];
+                lead[0] = 32;
+                pats.push(("lead-sp".into(), lead));
+                let mut trail = vec![1u64; *n];
+                trail[n - 1] = 32;
+                pats.push(("trail-sp".into(), trail));
+                pats.push(("all-sp".into(), vec![32u64; *n]));
+                pats.dedup_by(|a, b| a.1 == b.1);
+                for (name, cs) in pats {
+                    let mut b = vec![0u8; s.nbytes];
+                    for (k, c) in cs.iter().enumerate() {
+                        set_bits(&mut b, off + 6 * k, 6, *c);
+                    }
+                    for &(eo, ew, ev) in en {
+                        set_bits(&mut b, eo, ew, ev);
+                    }
+                    pin(&mut b);
+                    finish(&mut b, sealable);
+                    out(&b, &format!("area{ai}.{name}"), &mut idx);
                 }
             }
         }
